@@ -11,6 +11,7 @@ The requirement / extras / unnamed parsers are tied by correspondence and the ho
 oracle (see level_note); name validation totality is C09.
 -/
 import Pep508.Proofs.ParseFuel
+import Pep508.Proofs.ReqTotal
 namespace Pep508.C06
 open Pep508
 
@@ -41,6 +42,41 @@ theorem take_while_sliceable (c : Cursor) (p : Char → Bool) (h : c.Inv) :
     ∃ taken, sliceBytes c.input (c.takeWhile p).1.1 (c.takeWhile p).1.2 = some taken := by
   obtain ⟨taken, _, h2, _⟩ := Cursor.takeWhile_slice h p
   exact ⟨taken, h2⟩
+
+/-! ### the requirement parser (`Requirement::from_str / parse / parse_reporter`, `Extras::parse`) -/
+
+/-- the requirement parser never reaches a panic site (`expect` on names / extras, slices,
+    `unreachable!`), for every input, every environment and every behaviour of the external parsers -/
+theorem requirement_never_panics (env : ProcEnv) (x : Ext) (input : List Char) :
+    ∀ s, (parseRequirement env x input).fin ≠ .panic s := parseRequirement_no_panic env x input
+
+/-- every error it returns starts on a char boundary of the input -/
+theorem requirement_err_span (env : ProcEnv) (x : Ext) (input : List Char) (e : PErr)
+    (h : (parseRequirement env x input).fin = .err e) : Boundary input e.start :=
+  parseRequirement_err_boundary env x input e h
+
+/-- every slice handed to the external specifier / URL parsers exists, with the recorded span
+    (an external failure is reported with that span) -/
+theorem requirement_external_calls (env : ProcEnv) (x : Ext) (input : List Char) :
+    CallsOK input (parseRequirement env x input).calls := parseRequirement_calls env x input
+
+/-- the ambiguous-URL-end alternative (F17): its span starts on a boundary whenever the URL
+    text ends in a one-byte character (which is what "the parsed URL ends with `;`/`#`" implies) -/
+theorem requirement_url_ends_span (env : ProcEnv) (x : Ext) (input : List Char)
+    (alts : List (Char × PErr)) (other : PErr)
+    (hs : (parseRequirement env x input).fin = .urlEnds alts other)
+    (ch : Char) (e : PErr) (hm : (ch, e) ∈ alts) (t : List Char) (s l : Nat)
+    (hc : ExtCall.url t s l ∈ (parseRequirement env x input).calls)
+    (lastc : Char) (hlast : t.getLast? = some lastc) (h1 : utf8Len lastc = 1) :
+    Boundary input e.start ∧ Boundary input other.start :=
+  ⟨parseRequirement_urlEnds_alts env x input alts other hs ch e hm t s l hc lastc hlast h1,
+   parseRequirement_urlEnds_other env x input alts other hs⟩
+
+theorem extras_never_panic {c : Cursor} (h : c.Inv) : ∀ s, parseExtras c ≠ .panic s :=
+  (parseExtras_total h).2.2
+
+theorem name_never_panics (env : ProcEnv) {c : Cursor} (h : c.Inv) : ∀ s, parseName env c ≠ .panic s :=
+  (parseName_total env h).2.2
 
 /-- non-vacuity / the F2 witness on the model: multi-byte text after an expression is an
     error at byte 13 (a boundary), not a panic -/
